@@ -255,6 +255,15 @@ def r_summarize(chk):
            "measured risk = max over all of the contest's assertions of p_value, starting from 0 (reset per contest)",
            node=f.update, op=f.op, operand=norm(f.operand), init=norm(init) if init else None, full=f.full,
            reasons=f.reasons, iter=norm(l.iter))
+    # a p-value that is not a number (0/0 at a boundary the tests do not exclude: C11's declined clause) must keep the contest
+    # incomplete: the running maximum has to propagate it.  np.max([m, p]) / np.maximum(m, p) do; the builtin max(m, p) and
+    # `if p > m: m = p` silently keep m, after which `m <= limit` holds.
+    upd = f.update.value if isinstance(f.update, ast.Assign) else None
+    fname = norm(upd.func) if isinstance(upd, ast.Call) else None
+    chk.ob("C09.R4", where, "contest-fold-keeps-nan", fname in ("np.max", "np.maximum", "np.amax", "numpy.max", "numpy.maximum"),
+           "the running maximum is NumPy's (np.max / np.maximum), under which a p-value that is not a number makes the measured risk "
+           "not a number and the comparison with the risk limit false -- the contest stays incomplete", node=f.update, strength="N",
+           update=norm(f.update)[:80])
     # the decision: the condition that controls the store of False into the flag, as a table (however the comparison is
     # spelled, named or negated, and whichever branch carries the store)
     from ..canon import expand_locals
